@@ -20,7 +20,8 @@ PROPERTY = 'C19'
 RULE = ('histories over 6 IPv4 prefixes (incl. /0 and /32), 3 attribute sets, 3 flowspec rules, 3 VPNv4 routes: peer '
         'announce/withdraw/re-announce (same, changed)/mixed, flowspec and VPNv4 reach/unreach, operator sends of the same '
         'shapes, one peer UPDATE carrying IPv4 withdrawals together with a flowspec / VPNv4 MP attribute, session drop (peer '
-        'close, peer NOTIFICATION, header error, operator stop/start) and re-establishment; plus all sequences of length <= 3 (4 in thorough) over a 2-prefix '
+        'close, peer NOTIFICATION, header error, operator stop/start) and re-establishment, MP_REACH and MP_UNREACH of one '
+        'family in one UPDATE / REST request, the same prefix twice in one UPDATE; plus all sequences of length <= 3 (4 in thorough) over a 2-prefix '
         '2-attribute alphabet. Non-trivial = history contains a withdraw of a present route or a re-announce with changed '
         'attributes; distinct by operation sequence.')
 ASSUMPTIONS = ['rib=True; counters and tables are those of the current connection (a new session starts from zero)',
@@ -169,6 +170,45 @@ class Run(object):
                     req['nlri'] = ann
                 if wd:
                     req['withdraw'] = wd
+                code, body = sim.rest('POST', '/v1/peer/%s/send/update' % PEER, json_body=req)
+                if code != 200 or not body or body.get('status') is not True:
+                    out.append(('send-rejected:%s' % k, '%r -> %s %r' % (req, code, body)))
+        elif k == 'mp-both':
+            # one UPDATE / one REST request with MP_REACH and MP_UNREACH of the same family: announce one entry, withdraw
+            # another.  ['mp-both', 'fs'|'vpn', announce idx, withdraw idx, label, side]
+            self.nontrivial = True
+            famk, ai, wi, lab, side = op[1], op[2], op[3], op[4], op[5]
+            act = 'received' if side == 'peer' else 'send'
+            fam = 'flowspec' if famk == 'fs' else 'mpls_vpn'
+            table = {('fs', 'peer'): self.fs_in, ('fs', 'rest'): self.fs_out, ('vpn', 'peer'): self.vpn_in,
+                     ('vpn', 'rest'): self.vpn_out}[(famk, side)]
+            # (the agent handles the MP_REACH part first, then the MP_UNREACH part)
+            # what the agent keeps per entry is the attribute set of the UPDATE that announced it, and the MP_UNREACH of the
+            # same message belongs to that set: a later announcement without it counts as changed attributes
+            val = (lab, 'unreach-%d' % wi) if famk == 'vpn' else ('attrs0', 'unreach-%d' % wi)
+            if table.get(ai) != val:
+                changed[act].add(fam)
+            table[ai] = val
+            if wi in table:
+                del table[wi]
+                changed[act].add(fam)
+            base = rc.a_origin(0) + rc.a_as_path([(2, [65002])], True)
+            if side == 'peer':
+                if famk == 'fs':
+                    at = base + rc.a_mp_reach(1, 133, b'', rc.fs_rule(FS_RULES[ai])) + rc.a_mp_unreach(1, 133, rc.fs_rule(FS_RULES[wi]))
+                else:
+                    at = base + rc.a_mp_reach(1, 128, b'\x00' * 8 + rc.ip4('10.0.0.2'), rc.vpn_route(VPN[ai][1], rc.rd(VPN[ai][0]), [lab])) + \
+                        rc.a_mp_unreach(1, 128, rc.vpn_route(VPN[wi][1], rc.rd(VPN[wi][0]), [], raw_label=rc.WITHDRAW_LABEL))
+                r.peer_send(self.c, rc.update(attrs=at))
+            else:
+                if famk == 'fs':
+                    req = {'attr': {'1': 0, '2': [[2, [65001]]], '14': {'afi_safi': [1, 133], 'nexthop': '', 'nlri': [FS_JSON[ai]]},
+                                    '15': {'afi_safi': [1, 133], 'withdraw': [FS_JSON[wi]]}}}
+                else:
+                    req = {'attr': {'1': 0, '2': [[2, [65001]]],
+                                    '14': {'afi_safi': [1, 128], 'nexthop': {'rd': '0:0', 'str': '10.0.0.1'},
+                                           'nlri': [{'rd': VPN[ai][0], 'prefix': VPN[ai][1], 'label': [lab]}]},
+                                    '15': {'afi_safi': [1, 128], 'withdraw': [{'rd': VPN[wi][0], 'prefix': VPN[wi][1]}]}}}
                 code, body = sim.rest('POST', '/v1/peer/%s/send/update' % PEER, json_body=req)
                 if code != 200 or not body or body.get('status') is not True:
                     out.append(('send-rejected:%s' % k, '%r -> %s %r' % (req, code, body)))
@@ -379,6 +419,8 @@ op_strategy = st.one_of(
         lambda t: ['fs-ann2', t[1], (t[2] if t[2] != t[1] else (t[1] + 1) % 3), t[3]]),
     st.tuples(st.just('xfam'), idxs, st.sampled_from(['fs-ann', 'fs-wd', 'vpn-ann', 'vpn-wd']), st.integers(0, 2),
               st.sampled_from([16, 17])).map(list),
+    st.tuples(st.just('mp-both'), st.sampled_from(['fs', 'vpn']), st.integers(0, 2), st.integers(0, 2), st.sampled_from([16, 17]), side).map(
+        lambda t: ['mp-both', t[1], t[2], (t[3] if t[3] != t[2] else (t[2] + 1) % 3), t[4], t[5]]),
     st.sampled_from([['drop'], ['drop', 'notif'], ['drop', 'marker'], ['drop', 'stop']]),
 )
 
@@ -395,7 +437,9 @@ def run_shard(spec, seed, col, tier):
         alpha = [['ann', [1], 0, 'peer'], ['ann', [1], 1, 'peer'], ['ann', [1], 3, 'peer'], ['ann', [1], 4, 'rest'], ['ann', [1], 3, 'rest'], ['ann', [2], 0, 'peer'], ['ann', [1, 2], 1, 'peer'],
                  ['wd', [1], 'peer'], ['wd', [2], 'peer'], ['wd', [1, 1], 'peer'], ['mixed', [1], 0, [2], 'peer'], ['ann', [1], 0, 'rest'], ['wd', [1], 'rest'],
                  ['drop'], ['drop', 'notif'], ['vpn-ann2', 0, 16, 1, 17, 'peer'], ['vpn-ann', 0, 16, 'peer'], ['vpn-ann', 0, 17, 'peer'], ['vpn-wd', 0, 'peer'],
-                 ['fs-ann2', 0, 1, 'peer'], ['fs-wd', 0, 'peer'], ['xfam', [1], 'fs-wd', 0, 16], ['xfam', [2], 'vpn-ann', 0, 17]]
+                 ['fs-ann2', 0, 1, 'peer'], ['fs-wd', 0, 'peer'], ['xfam', [1], 'fs-wd', 0, 16], ['xfam', [2], 'vpn-ann', 0, 17],
+                 ['vpn-ann', 1, 16, 'rest'], ['mp-both', 'vpn', 0, 1, 16, 'rest'], ['fs-ann', 1, 'rest'], ['mp-both', 'fs', 0, 1, 16, 'rest'],
+                 ['mp-both', 'vpn', 0, 1, 16, 'peer']]
         seqs = list(itertools.product(range(len(alpha)), repeat=spec['len']))[spec['part']::spec['parts']]
         for s in seqs:
             ops = [alpha[i] for i in s]
